@@ -47,8 +47,8 @@ package runner
 //@   trace Task.Wait as WAIT bind waited
 //@   trace Task.Errors as ERRS bind terrs
 //@   loop 1 invariant -1 <= $i && $i < len(wl)
-//@   loop 1 step $i == prev($i) + 1 && taskName == wl[$i] && ok && got.1 && waited == nil && len(terrs) == 0
-//@   at_call TasksManager.Get requires $0 == taskName && $recv == tasksManager
+//@   loop 1 step $i == prev($i) + 1 && $v == wl[$i] && got.1 && waited == nil && len(terrs) == 0
+//@   at_call TasksManager.Get requires $0 == $v && $recv == tasksManager
 //@   at_call Task.Wait requires $recv == got.0
 //@   at_call Task.Errors requires $recv == got.0
 //@   ensures err == nil ==> $i + 1 >= len(wl)
